@@ -228,15 +228,42 @@ void StreamAckManager::enableStreamManagement(bool resetSequenceNumber)
     }
 }
 
-void StreamAckManager::setAcknowledgedSequenceNumber(unsigned int sequenceNumber)
+QVector<QXmppPacket> StreamAckManager::takeAcknowledged(unsigned int sequenceNumber)
 {
+    QVector<QXmppPacket> acknowledged;
     for (auto it = m_unacknowledgedStanzas.begin(); it != m_unacknowledgedStanzas.end();) {
         if (it.key() <= sequenceNumber) {
-            it->reportFinished(QXmpp::SendSuccess { true });
+            acknowledged.push_back(*it);
             it = m_unacknowledgedStanzas.erase(it);
         } else {
             break;
         }
+    }
+    return acknowledged;
+}
+
+void StreamAckManager::setAcknowledgedSequenceNumber(unsigned int sequenceNumber)
+{
+    // The delivery reports run user code (QXmppTask continuations), which may send the next stanza
+    // right away. Take the acknowledged packets out of the queue first and report afterwards, so
+    // such a stanza is queued behind everything that is still unacknowledged and is not looked at
+    // by this acknowledgement.
+    auto acknowledged = takeAcknowledged(sequenceNumber);
+    for (auto &packet : acknowledged) {
+        packet.reportFinished(QXmpp::SendSuccess { true });
+    }
+}
+
+void StreamAckManager::resumeStreamManagement(unsigned int acknowledgedSequenceNumber)
+{
+    // The session is resumed from the server's point of view: every stanza written from now on is
+    // counted by it. So stream management must be active again and the unacknowledged stanzas must
+    // have been resent (in their original order) before a delivery report gets the chance to send
+    // something new; otherwise that stanza would go out unnumbered and ahead of older ones.
+    auto acknowledged = takeAcknowledged(acknowledgedSequenceNumber);
+    enableStreamManagement(false);
+    for (auto &packet : acknowledged) {
+        packet.reportFinished(QXmpp::SendSuccess { true });
     }
 }
 
